@@ -1422,7 +1422,8 @@ def _build_fn(sf: SourceFile, item: Item, impl, ex: Extract, props, rep, unit, a
 
     if ex.exit_:
         pv = _prev_sig(body_toks, len(body_toks) - 1)
-        semi = "; " if pv >= 0 and body_toks[pv].text not in (";", "}", "{") else ""
+        # a stray `;` after a block-like last statement is an empty statement; a tail expression of type () needs it
+        semi = "; " if pv >= 0 and body_toks[pv].text not in (";", "{") else ""
         body_toks[len(body_toks) - 1:len(body_toks) - 1] = [T("raw", "\n" + semi + "\n".join(e[3] for e in ex.exit_) + "\n")]
     if ex.entry:
         body_toks[1:1] = [T("raw", "\n" + "\n".join(e[3] for e in ex.entry) + "\n")]
